@@ -47,6 +47,7 @@ CONSTANTS N,           \* subscribers
           MaxConn,     \* connection instances (dials)
           MaxFrames,   \* frames the upstream sends in total
           MaxCancels,  \* context cancellations
+          CfgSet,      \* the configurations to start from: Configs (base) or ConfigsX (+ un-encodable request, pings)
           Fixes        \* subset of {"dial", "write", "close", "map"}: repairs present in the code ({} = pinned code)
 
 Subs  == 1..N
@@ -54,12 +55,16 @@ Keys  == 1..NK
 Conn  == 1..MaxConn
 None  == 0
 Kinds == {"next", "complete", "error"}
+\* top-level field sets of a next payload: data | data:null + errors | data + extensions ("-" for complete / error frames)
+Variants == {"d", "de", "dx"}
 CtxRes == {"ctx", "initctx"}                 \* dial results caused by the dialler's own context
 Foreign == {"foreign_dial", "foreign_write", "foreign_close"}
 Fix(x) == x \in Fixes
 
 VARIABLES
-  cfg,       \* [key: Subs -> Keys, idle: "zero"|"pos"]  (fixed after Init)
+  cfg,       \* [key: Subs -> Keys, idle: "zero"|"pos", bad: Subs -> BOOLEAN, ping: BOOLEAN]  (fixed after Init)
+             \*   bad[s]: the request of s cannot be encoded (invalid json.RawMessage variables): its subscribe frame is
+             \*           never written although the socket is healthy;  ping: client pings with a pong timeout are on
   sub,       \* Subs -> [pc, err, blame, ctxc, cpend, tgt, unsub]
   conn,      \* Conn -> connection / dial record (see ConnInit)
   subs,      \* Conn -> [wire id (= creating subscriber) -> handler (subscriber) | None]   wsConnection.subs
@@ -72,9 +77,16 @@ VARIABLES
 
 vars == <<cfg, sub, conn, subs, dialing, conns, down, hlog, sent, nconn, nframes, ncancel>>
 
+DenseKeys(c) == \A s \in Subs : c.key[s] = 1 \/ \E q \in 1..(s - 1) : c.key[q] = c.key[s] - 1
+NoBad == [s \in Subs |-> FALSE]
 Configs ==
-  { c \in [key: [Subs -> Keys], idle: {"zero", "pos"}] :
-       \A s \in Subs : c.key[s] = 1 \/ \E q \in 1..(s - 1) : c.key[q] = c.key[s] - 1 }
+  { c \in [key: [Subs -> Keys], idle: {"zero", "pos"}, bad: {NoBad}, ping: {FALSE}] : DenseKeys(c) }
+\* + at most one subscriber with an un-encodable request; pings only with idle = zero and encodable requests
+ConfigsX ==
+  { c \in [key: [Subs -> Keys], idle: {"zero", "pos"}, bad: [Subs -> BOOLEAN], ping: BOOLEAN] :
+       /\ DenseKeys(c)
+       /\ Cardinality({s \in Subs : c.bad[s]}) <= 1
+       /\ c.ping => (c.idle = "zero" /\ c.bad = NoBad) }
 
 SubInit  == [pc |-> "idle", err |-> "none", blame |-> "none", ctxc |-> FALSE, cpend |-> FALSE, tgt |-> None, unsub |-> FALSE]
 ConnInit == [key |-> None, dialler |-> None,
@@ -92,10 +104,12 @@ ConnInit == [key |-> None, dialler |-> None,
              pending |-> {},        \* handlers shutdown() still has to call
              srv |-> "none",        \* server side: none | gate_up | rejected | gate_ack | open | closed (by the server)
              acked |-> FALSE,
+             muted |-> FALSE,       \* the server stopped answering pings
+             code |-> 0,            \* close code the server sent (0 = none / abrupt)
              ssubs |-> {}]          \* ids the server received a subscribe for
 
 Init ==
-  /\ cfg \in Configs
+  /\ cfg \in CfgSet
   /\ sub = [s \in Subs |-> SubInit]
   /\ conn = [c \in Conn |-> ConnInit]
   /\ subs = [c \in Conn |-> [i \in Subs |-> None]]
@@ -261,15 +275,24 @@ RegisterRetry(s) ==
 
 \* protocol.Subscribe(ctx+writeTimeout): the frame reaches the server
 WriteOk(s) ==
-  /\ sub[s].pc = "registered" /\ conn[sub[s].tgt].sock = "open"
+  /\ sub[s].pc = "registered" /\ conn[sub[s].tgt].sock = "open" /\ ~cfg.bad[s]
   /\ ~sub[s].ctxc \/ sub[s].cpend \/ Fix("write")
   /\ conn' = [conn EXCEPT ![sub[s].tgt].ssubs = @ \cup {s}]
   /\ sub' = [sub EXCEPT ![s].pc = "ok"]
   /\ UNCHANGED <<cfg, subs, dialing, conns, down, hlog, sent, nconn, nframes, ncancel>>
 
 \* the socket is gone: the write fails, removeSub(id)
+\* the request cannot be encoded: nothing is written, the socket stays healthy, removeSub(id)
+WriteEncodeFail(s) ==
+  /\ sub[s].pc = "registered" /\ cfg.bad[s]
+  /\ LET c == sub[s].tgt IN
+       /\ subs' = [subs EXCEPT ![c][s] = None]
+       /\ conn' = [conn EXCEPT ![c] = RemoveRec(c, s, sub[s].ctxc)]
+       /\ sub' = Fail(s, "encode", "own")
+  /\ UNCHANGED <<cfg, dialing, conns, down, hlog, sent, nconn, nframes, ncancel>>
+
 WriteDead(s) ==
-  /\ sub[s].pc = "registered" /\ conn[sub[s].tgt].sock # "open"
+  /\ sub[s].pc = "registered" /\ conn[sub[s].tgt].sock # "open" /\ ~cfg.bad[s]
   /\ LET c == sub[s].tgt IN
        /\ subs' = [subs EXCEPT ![c][s] = None]
        /\ conn' = [conn EXCEPT ![c] = RemoveRec(c, s, sub[s].ctxc)]
@@ -288,7 +311,7 @@ WriteCancelSafe(s) ==
 \* own ctx already cancelled, the lock is acquired: setupWriteTimeout(ctx) -> context.AfterFunc fires at once and
 \* closes the SHARED socket; the write itself may or may not have gone through
 WriteCancelKillOk(s) ==
-  /\ ~Fix("write")
+  /\ ~Fix("write") /\ ~cfg.bad[s]
   /\ sub[s].pc = "registered" /\ conn[sub[s].tgt].sock = "open" /\ sub[s].ctxc
   /\ LET c == sub[s].tgt IN
        /\ conn' = [conn EXCEPT ![c].sock = "closed", ![c].cause = "kill", ![c].ssubs = @ \cup {s}]
@@ -296,7 +319,7 @@ WriteCancelKillOk(s) ==
   /\ UNCHANGED <<cfg, subs, dialing, conns, down, hlog, sent, nconn, nframes, ncancel>>
 
 WriteCancelKillErr(s) ==
-  /\ ~Fix("write")
+  /\ ~Fix("write") /\ ~cfg.bad[s]
   /\ sub[s].pc = "registered" /\ conn[sub[s].tgt].sock = "open" /\ sub[s].ctxc
   /\ LET c == sub[s].tgt
          r == [RemoveRec(c, s, TRUE) EXCEPT !.sock = "closed", !.cause = "kill"] IN
@@ -327,7 +350,7 @@ DispatchTo(c) ==
   /\ Head(down[c]).k \in Kinds /\ subs[c][Head(down[c]).id] # None
   /\ LET f == Head(down[c])
          h == subs[c][f.id] IN
-       /\ hlog' = [hlog EXCEPT ![h] = Append(@, [k |-> f.k, n |-> f.n, id |-> f.id])]
+       /\ hlog' = [hlog EXCEPT ![h] = Append(@, [k |-> f.k, n |-> f.n, id |-> f.id, v |-> f.v])]
        /\ IF f.k \in {"complete", "error"}
           THEN /\ subs' = [subs EXCEPT ![c][f.id] = None]
                /\ conn' = [conn EXCEPT ![c] = RemoveRec(c, f.id, FALSE)]
@@ -352,6 +375,13 @@ ReadClose(c) ==
   /\ down' = [down EXCEPT ![c] = <<>>]
   /\ UNCHANGED <<cfg, sub, dialing, conns, hlog, sent, nconn, nframes, ncancel>>
 
+\* the ping loop found the pong overdue: closeConn()
+PingExpire(c) ==
+  /\ ReadLive(c) /\ conn[c].sock = "open" /\ conn[c].muted
+  /\ ShutBegin(c, "upstream")
+  /\ down' = [down EXCEPT ![c] = <<>>]
+  /\ UNCHANGED <<cfg, sub, dialing, conns, hlog, sent, nconn, nframes, ncancel>>
+
 \* the socket was closed under the read loop (WriteCancelKill*)
 ReadKilled(c) ==
   /\ ReadLive(c) /\ conn[c].sock = "closed"
@@ -361,7 +391,7 @@ ReadKilled(c) ==
 
 ShutNotify(c, h) ==
   /\ conn[c].shut = "notify" /\ h \in conn[c].pending
-  /\ hlog' = [hlog EXCEPT ![h] = Append(@, [k |-> "connerr", n |-> 0, id |-> 0])]
+  /\ hlog' = [hlog EXCEPT ![h] = Append(@, [k |-> "connerr", n |-> conn[c].code, id |-> 0, v |-> "-"])]
   /\ conn' = [conn EXCEPT ![c].pending = @ \ {h}]
   /\ sub' = [sub EXCEPT ![h].blame = IF @ = "none" THEN CauseBlame(c, h) ELSE @]
   /\ UNCHANGED <<cfg, subs, dialing, conns, down, sent, nconn, nframes, ncancel>>
@@ -400,37 +430,45 @@ SrvInitFail(c) == SrvAt(c, "gate_ack") /\ conn[c].stage = "init" /\ SrvSet(c, "c
 TerminalSent(s) == \E i \in 1..Len(sent[s]) : sent[s][i].k \in {"complete", "error"}
 
 \* one scripted frame for the subscription the server knows as id s (it has seen its subscribe frame)
-SrvSend(c, s, k) ==
+SrvSend(c, s, k, v) ==
   /\ SrvAt(c, "open") /\ s \in conn[c].ssubs /\ nframes < MaxFrames /\ ~TerminalSent(s)
-  /\ down' = [down EXCEPT ![c] = Append(@, [k |-> k, n |-> Len(sent[s]) + 1, id |-> s])]
-  /\ sent' = [sent EXCEPT ![s] = Append(@, [k |-> k, n |-> Len(sent[s]) + 1])]
+  /\ (k = "next" /\ v \in Variants) \/ (k # "next" /\ v = "-")
+  /\ down' = [down EXCEPT ![c] = Append(@, [k |-> k, n |-> Len(sent[s]) + 1, id |-> s, v |-> v])]
+  /\ sent' = [sent EXCEPT ![s] = Append(@, [k |-> k, n |-> Len(sent[s]) + 1, v |-> v])]
   /\ nframes' = nframes + 1
   /\ UNCHANGED <<cfg, sub, conn, subs, dialing, conns, hlog, nconn, ncancel>>
 
 \* the upstream drops the connection
-SrvClose(c) ==
+\* ... with a close frame carrying code (0 = it just drops the TCP connection)
+SrvClose(c, code) ==
   /\ SrvAt(c, "open")
-  /\ conn' = [conn EXCEPT ![c].srv = "closed"]
-  /\ down' = [down EXCEPT ![c] = Append(@, [k |-> "close", n |-> 0, id |-> 0])]
+  /\ conn' = [conn EXCEPT ![c].srv = "closed", ![c].code = code]
+  /\ down' = [down EXCEPT ![c] = Append(@, [k |-> "close", n |-> code, id |-> 0, v |-> "-"])]
   /\ UNCHANGED <<cfg, sub, subs, dialing, conns, hlog, sent, nconn, nframes, ncancel>>
+
+\* the upstream stops answering pings (graphql-transport-ws ping / pong)
+SrvMute(c) ==
+  /\ cfg.ping /\ SrvAt(c, "open") /\ ~conn[c].muted
+  /\ conn' = [conn EXCEPT ![c].muted = TRUE]
+  /\ UNCHANGED <<cfg, sub, subs, dialing, conns, down, hlog, sent, nconn, nframes, ncancel>>
 
 -----------------------------------------------------------------------------
 InternalSub(s) ==
   \/ GetOrDial(s) \/ WakeDoneOk(s) \/ WakeDoneErr(s) \/ WakeDoneRetry(s) \/ WakeCtx(s)
   \/ RegisterOk(s) \/ RegisterClosed(s) \/ RegisterRetry(s)
-  \/ WriteOk(s) \/ WriteDead(s) \/ WriteCancelSafe(s) \/ WriteCancelKillOk(s) \/ WriteCancelKillErr(s)
+  \/ WriteOk(s) \/ WriteEncodeFail(s) \/ WriteDead(s) \/ WriteCancelSafe(s) \/ WriteCancelKillOk(s) \/ WriteCancelKillErr(s)
   \/ Unsubscribe(s)
 
 InternalConn(c) ==
   \/ DialUpgraded(c) \/ DialRejected(c) \/ DialAcked(c) \/ DialInitFailed(c) \/ DialCtx(c)
   \/ PubDone(c) \/ PubMapOk(c) \/ PubMapErr(c)
-  \/ DispatchTo(c) \/ DispatchDrop(c) \/ ReadClose(c) \/ ReadKilled(c)
+  \/ DispatchTo(c) \/ DispatchDrop(c) \/ ReadClose(c) \/ ReadKilled(c) \/ PingExpire(c)
   \/ (\E h \in Subs : ShutNotify(c, h)) \/ ShutEnd(c)
 
 Env ==
   \/ \E s \in Subs : Call(s) \/ Cancel(s)
-  \/ \E c \in Conn : SrvUpgrade(c) \/ SrvReject(c) \/ SrvAck(c) \/ SrvInitFail(c) \/ SrvClose(c)
-  \/ \E c \in Conn, s \in Subs, k \in Kinds : SrvSend(c, s, k)
+  \/ \E c \in Conn : SrvUpgrade(c) \/ SrvReject(c) \/ SrvAck(c) \/ SrvInitFail(c) \/ SrvClose(c, 0) \/ SrvMute(c)
+  \/ \E c \in Conn, s \in Subs, k \in Kinds : SrvSend(c, s, k, IF k = "next" THEN "d" ELSE "-")
 
 Next == Env \/ (\E s \in Subs : InternalSub(s)) \/ (\E c \in Conn : InternalConn(c) \/ IdleFire(c))
 
@@ -447,7 +485,7 @@ BusyConn(c) ==
   \/ conn[c].stage = "init" /\ (conn[c].acked \/ conn[c].srv = "closed")
   \/ conn[c].stage \in {"req", "init"} /\ sub[conn[c].dialler].ctxc
   \/ conn[c].stage \in {"ok", "failed"} /\ (~conn[c].pub \/ ~conn[c].done)
-  \/ ReadLive(c) /\ (conn[c].sock = "closed" \/ down[c] # <<>>)
+  \/ ReadLive(c) /\ (conn[c].sock = "closed" \/ down[c] # <<>> \/ conn[c].muted)
   \/ conn[c].shut = "notify"
 
 Quiescent == (\A s \in Subs : ~BusySub(s)) /\ (\A c \in Conn : ~BusyConn(c))
@@ -469,7 +507,8 @@ Routed ==
   \A s \in Subs :
     /\ Len(Frames(s)) <= Len(sent[s])
     /\ \A i \in 1..Len(Frames(s)) :
-         Frames(s)[i].id = s /\ Frames(s)[i].k = sent[s][i].k /\ Frames(s)[i].n = sent[s][i].n
+         /\ Frames(s)[i].id = s /\ Frames(s)[i].k = sent[s][i].k /\ Frames(s)[i].n = sent[s][i].n
+         /\ Frames(s)[i].v = sent[s][i].v       \* the whole payload (which top-level fields, whose contents)
 
 Terminated(s) == \E i \in 1..Len(hlog[s]) : hlog[s][i].k \in {"complete", "error", "connerr"}
 
